@@ -337,6 +337,59 @@ def parameter_lists(ctx, ds):
                     ctx.violation("changed:parameter-list", f"{opname}({mode}): {t} emitted as {astx.unparse(out)[:160]} :: {astx.first_diff(out, lam_in)}", {"op": opname, "mode": mode, "text": t, "param_list": True})
 
 
+def strip_positions(tree, mixed=False):
+    """an AST as code builds it: no lineno / col_offset on the nodes (mixed: only on every other node, as when a parsed template
+    has parts replaced by constructed nodes)"""
+    for i, n in enumerate(astx.walk_nodes(tree)):
+        if mixed and i % 2 == 0:
+            continue
+        for a in ("lineno", "col_offset", "end_lineno", "end_col_offset"):
+            if hasattr(n, a):
+                try:
+                    delattr(n, a)
+                except AttributeError:
+                    pass
+    return tree
+
+
+AST_MODES = {"ast": lambda t: astx.parse_expr(t), "ast-no-positions": lambda t: strip_positions(astx.parse_expr(t)), "ast-mixed-positions": lambda t: strip_positions(astx.parse_expr(t), mixed=True)}
+
+LAYOUT_TEXTS = [
+    "lambda e: {'pt  (GeV)': e.x,\n           'eta\tphi': e.y}",
+    "lambda e: (e.x,\n  e.f('a   b',   'c\u00a0d'))",
+    "lambda e: (e.x,  # a comment (with a bracket\n           e.y)",
+    "lambda e: [e.a,\n\n   e.b   ,\n e.c('  ')]",
+    "lambda e: e.f(\n    k = 'two  blanks',\n    j=e.y  )",
+    "  lambda   e :  e.x   +   e.g( ' x ' )  ",
+    "lambda e: e.jets.Select(lambda j:\n (j.pt,   'a    b'))",
+    "lambda e: (e.x\n  if e.y > 1   # why\n  else e.z)",
+    "lambda e: e.x[ 'k  k' ]",
+    'lambda e: e.f("""two\nlines   and  blanks""")',
+]
+
+
+def layout_texts(ctx, ds):
+    """the text form may be laid out freely (line breaks inside brackets, comments, runs of blanks inside string constants): what
+    is emitted is the lambda python parses from that text"""
+    for text in LAYOUT_TEXTS:
+        try:
+            want = ast.parse(text.strip(), mode="eval").body
+        except SyntaxError:
+            ctx.count("harness:layout-text-syntax-error")
+            continue
+        for opname in ("Select", "SelectMany"):  # (Where refuses non-boolean bodies by design)
+            ctx.case(f"layout|{opname}|{text}", True)
+            ctx.count("layout-text-cases")
+            try:
+                s = getattr(ds, opname)(text)
+            except Exception as e:
+                ctx.violation(f"layout-text-refused:{type(e).__name__}", f"{opname}(string): {text!r} :: {type(e).__name__}: {str(e)[:160]}", {"op": opname, "mode": "string", "text": text})
+                continue
+            out = s.query_ast.args[1]
+            if not astx.struct_eq(out, want):
+                ctx.violation("changed:layout-text", f"{opname}(string): {text!r} emitted as {astx.unparse(out)[:200]} :: {astx.first_diff(out, want)}", {"op": opname, "mode": "string", "text": text})
+
+
 def must_refuse(ctx, ds):
     """The designed refusals are ValueErrors: clear-cut instances must be refused, by every operator and supply mode."""
     for cls, body in MUST_REFUSE:
@@ -347,11 +400,11 @@ def must_refuse(ctx, ds):
                 text_op = f"lambda e: ({body}) == 1" if cls != "incompatible-conditional" or True else text
             else:
                 text_op = text
-            for mode in ("string", "ast"):
+            for mode in ("string", "ast", "ast-no-positions", "ast-mixed-positions"):
                 ctx.case(f"must-refuse|{opname}|{mode}|{text_op}", True)
                 ctx.count("must-refuse-cases")
                 try:
-                    s = getattr(ds, opname)(text_op if mode == "string" else astx.parse_expr(text_op))
+                    s = getattr(ds, opname)(text_op if mode == "string" else AST_MODES[mode](text_op))
                 except ValueError:
                     ctx.count("must-refuse:refused")
                     continue
@@ -372,6 +425,7 @@ def shard_main(ctx):
     if ctx.shard == 0:
         must_refuse(ctx, ds)
         parameter_lists(ctx, ds)
+        layout_texts(ctx, ds)
     l1 = level1()
     todo = [(t, tag, 1) for t, tag in l1]
     todo += [(t, tag, 2) for t, tag in level2(l1)]
@@ -393,7 +447,8 @@ def shard_main(ctx):
         text = f"lambda e: {t}"
         for opname in ("Select", "SelectMany", "Where"):
             judge(ctx, ds, opname, "string", text, tag, depth, lambda: getattr(ds, opname)(text))
-            judge(ctx, ds, opname, "ast", text, tag, depth, lambda: getattr(ds, opname)(astx.parse_expr(text)))
+            amode = ("ast", "ast", "ast-no-positions", "ast-mixed-positions")[n % 4]
+            judge(ctx, ds, opname, amode, text, tag, depth, lambda: getattr(ds, opname)(AST_MODES[amode](text)))
         if n % (40 if ctx.tier == "quick" else 12) == 0:
             callable_batch.append((t, tag, depth))
             if len(callable_batch) >= 60:
